@@ -74,8 +74,9 @@ class Run:
     pass
 
 
-def do_run(cfg, resume_from=None, fail_at=None, budget_s=60, vid0=0, keep_payloads=True):
-    """Execute one real run; never raises."""
+def do_run(cfg, resume_from=None, fail_at=None, budget_s=60, vid0=0, keep_payloads=True, retry_on=None):
+    """Execute one real run; never raises.  `retry_on`: an earlier (interrupted) Run whose sampler object, target and generator are
+    used again for this call (the in-process retry: same sampler, resume_from = what its callback kept)."""
     import emcee
     NS = nsutil.namespaces()
     xp = NS[cfg["ns"]]
@@ -87,7 +88,12 @@ def do_run(cfg, resume_from=None, fail_at=None, budget_s=60, vid0=0, keep_payloa
     rng = np.random.default_rng(cfg["seed"])
     emcee.reset_counter(cfg["seed"] % 997)
     kind = cfg["kind"]
-    sampler = sd.make_sampler("minipcn_smc" if kind == "base" else kind, target, flow, xp, dt, dims, rng=rng)
+    if retry_on is not None:
+        target, sampler = retry_on.target, retry_on.sampler
+        rng = getattr(sampler, "rng", rng)
+        target.fail_at = fail_at
+    else:
+        sampler = sd.make_sampler("minipcn_smc" if kind == "base" else kind, target, flow, xp, dt, dims, rng=rng)
     rec = sd.Recorder()
     rec.vid = vid0
     rec.install(sampler)
